@@ -616,7 +616,7 @@ pub fn check(ctx: &Ctx, rep: &mut Report) {
     }
     // (3) random statements of every kind
     let rbase = 1u64 << 40;
-    let total = ctx.size(100_000, 2_400_000) / ctx.nshards;
+    let total = ctx.size(100_000, 20_000_000) / ctx.nshards;
     for k in 0..total {
         let n = rbase + k;
         if !ctx.wants(n) {
